@@ -27,6 +27,9 @@ type Env struct {
 	groles *GraphRoles
 	nroles *NodeRoles
 	aroles *AgentRoles
+	sfields *SchedFields
+	tables   map[*ssa.Global][]TableEntry
+	tablesOK map[*ssa.Global]bool
 	anySite bool // splitOnCall accepts helpers with several call sites (expandBound)
 }
 
